@@ -218,6 +218,42 @@ def run_homogeneous(ctx: Ctx) -> None:
                             return False, f"homogeneous_matmul item {i}: {tstr(cf[i])[:120]} expected {tstr(want)[:120]}"
                     return True, ""
                 _guard(ctx, "T6.compose", tag, fM, f"a={ka} b={kb} batch=({ba},{bb}) D={D}", th)
+        # integer-typed operands (voxel offsets, flips and axis permutations are naturally integer tensors) with a floating-point partner:
+        # the composite has non-integral entries, so it must come back in floating point with the exact values
+        for ka, kb, int_side in itertools.product(kinds, kinds, ("a", "b")):
+            reset_relations()
+            fresh_facts()
+            it = make_interp(ctx)
+
+            def concrete(kind, integral, D=D):
+                if integral:
+                    A = [[(1 if (i + 1) % D == j else 0) * (-1 if i == 0 else 1) for j in range(D)] for i in range(D)]  # signed permutation
+                    t = [[2 * i - 3] for i in range(D)]
+                else:
+                    A = [[Fraction(2 * i + j + 1, 7) * (1 if (i + j) % 2 else -1) for j in range(D)] for i in range(D)]
+                    t = [[Fraction(2 * i + 1, 4)] for i in range(D)]
+                At = STensor.from_nested(A, symt.INT if integral else symt.FLOAT)
+                tt = STensor.from_nested(t, symt.INT if integral else symt.FLOAT)
+                Af, tf = STensor.from_nested(A), STensor.from_nested(t)
+                if kind == "translation":
+                    return tt, symt.cat([symt.eye(D), tf], dim=1)
+                if kind == "affine":
+                    return At, symt.cat([Af, symt.zeros(D, 1)], dim=1)
+                return symt.cat([At, tt], dim=1), symt.cat([Af, tf], dim=1)
+            a, ra = concrete(ka, int_side == "a")
+            b, rb = concrete(kb, int_side == "b")
+
+            def thi(a=a, b=b, ra=ra, rb=rb):
+                want = compose(ra, rb)
+                for nm, f in (("hmm", fH), ("homogeneous_matmul", fM)):
+                    c = it.call(f, a, b)
+                    if not c.dtype.is_floating_point:
+                        return False, (f"{nm}(a, b) of an integer-typed and a floating-point operand has dtype {c.dtype.name}: the composite's "
+                                       f"non-integral entries are truncated")
+                    if not teq(as_h(c), want):
+                        return False, f"{nm}: {tstr(as_h(c))[:120]} expected {tstr(want)[:120]}"
+                return True, ""
+            _guard(ctx, "T6.compose", f"D={D}:{ka}*{kb}:int-{int_side}", fM, f"a={ka} b={kb} integer operand={int_side} D={D}", thi)
         # three operands
         reset_relations()
         fresh_facts()
@@ -707,3 +743,94 @@ def run_accessors(ctx: Ctx) -> None:
                     return True, ""
                 _guard(ctx, "T8.accessors", f"{cls}:D={D}:{kind}", fS,
                        f"{cls} D={D} params={'frozen parameter' if kind == 'frozen' else 'parameter' if kind else 'buffer'}", ths)
+
+
+def run_quaternion_angle_axis(ctx: Ctx) -> None:
+    """quaternion <-> rotation vector <-> matrix conversions on unit quaternions with rational components, half-turns included."""
+    import math
+    prog = ctx.prog
+    K = "deepali.core._kornia"
+    fQA = prog.func(K, "quaternion_to_angle_axis")
+    fAQ = prog.func(K, "angle_axis_to_quaternion")
+    fMA = prog.func(K, "rotation_matrix_to_angle_axis")
+    for f in (fQA, fAQ, fMA):
+        ctx.fn(f)
+    ctx.rule("T7.quat-angle-axis", "for unit quaternions q = (w, v) with rational components and rational |v| — scalar part positive, negative "
+                                   "and exactly zero (half-turns) — the rotation vector quaternion_to_angle_axis(q) describes the rotation of q "
+                                   "(Rodrigues' formula of the returned vector = the rotation matrix of q, compared after constant folding, "
+                                   "|r| <= pi); angle_axis_to_quaternion of it is +-q; rotation_matrix_to_angle_axis(M) is the rotation vector of "
+                                   "the quaternion rotation_matrix_to_quaternion returns for M (that conversion is T7.matrix-to-quat)")
+    ax = [Fraction(2, 7), Fraction(3, 7), Fraction(6, 7)]
+    quats = [(Fraction(3, 5), [Fraction(4, 5) * x for x in ax]), (Fraction(-3, 5), [Fraction(4, 5) * x for x in ax]),
+             (Fraction(0), list(ax)), (Fraction(0), [Fraction(1), Fraction(0), Fraction(0)]), (Fraction(0), [Fraction(0), Fraction(0), Fraction(-1)]),
+             (Fraction(-5, 13), [Fraction(-12, 13) * x for x in ax]), (Fraction(12, 13), [Fraction(0), Fraction(-5, 13), Fraction(0)])]
+    # (the identity quaternion is left out: torch evaluates 0/0 in the branch it then discards; exact arithmetic cannot)
+
+    def qmat(w, v):
+        x, y, z = v
+        return [[1 - 2 * (y * y + z * z), 2 * (x * y - z * w), 2 * (x * z + y * w)],
+                [2 * (x * y + z * w), 1 - 2 * (x * x + z * z), 2 * (y * z - x * w)],
+                [2 * (x * z - y * w), 2 * (y * z + x * w), 1 - 2 * (x * x + y * y)]]
+
+    def rodrigues(r):
+        th = math.sqrt(sum(c * c for c in r))
+        if th < 1e-12:
+            return [[1.0 if i == j else 0.0 for j in range(3)] for i in range(3)]
+        k = [c / th for c in r]
+        Kx = [[0, -k[2], k[1]], [k[2], 0, -k[0]], [-k[1], k[0], 0]]
+        K2 = [[sum(Kx[i][m] * Kx[m][j] for m in range(3)) for j in range(3)] for i in range(3)]
+        return [[(1.0 if i == j else 0.0) + math.sin(th) * Kx[i][j] + (1 - math.cos(th)) * K2[i][j] for j in range(3)] for i in range(3)]
+
+    def numeric(t, what):
+        out = []
+        for x in t.flat():
+            v = symt.numeric_value(x)
+            if v is None:
+                raise AnalysisError(f"{what}: component is not a constant expression: {x}")
+            out.append(v)
+        return out
+
+    def same_rotation(r, M):
+        R = rodrigues(r)
+        return max(abs(R[i][j] - float(M[i][j])) for i in range(3) for j in range(3)) < 1e-9
+
+    for w, v in quats:
+        def th(w=w, v=v):
+            reset_relations()
+            fresh_facts()
+            it = make_interp(ctx)
+            q = STensor.from_flat([w] + list(v), [1, 4])
+            M = qmat(w, v)
+            r = it.call(fQA, q)
+            if tuple(r.shape) != (1, 3):
+                return False, f"rotation vector has shape {tuple(r.shape)}"
+            rv = numeric(r, "quaternion_to_angle_axis")
+            if math.sqrt(sum(c * c for c in rv)) > math.pi + 1e-9:
+                return False, f"rotation vector of q=(w={w}) has angle {math.sqrt(sum(c * c for c in rv)):.6f} > pi"
+            if not same_rotation(rv, M):
+                return False, (f"quaternion_to_angle_axis(w={w}, v={[str(x) for x in v]}) ~ {[round(c, 6) for c in rv]} does not describe the "
+                               f"rotation of the quaternion")
+            qb = numeric(it.call(fAQ, r), "angle_axis_to_quaternion")
+            want = [float(w)] + [float(x) for x in v]
+            if min(max(abs(a - s * b) for a, b in zip(qb, want)) for s in (1, -1)) > 1e-9:
+                return False, f"angle_axis_to_quaternion(quaternion_to_angle_axis(q)) ~ {[round(c, 6) for c in qb]} is not +-q"
+            # rotation_matrix_to_angle_axis: composition of the two conversions that are decided on their own (T7.matrix-to-quat on every
+            # branch; the unselected branches of a *concrete* half-turn matrix divide by zero in exact arithmetic, torch discards them)
+            fMQ = prog.func(K, "rotation_matrix_to_quaternion")
+            seen = {}
+
+            def fake_mq(interp, args, kwargs):
+                seen["m"] = args[0] if args else kwargs.get("rotation_matrix")
+                return q
+            it.overrides[fMQ.key] = fake_mq
+            try:
+                Mt = STensor.from_nested([M])
+                rm = it.call(fMA, Mt)
+            finally:
+                del it.overrides[fMQ.key]
+            if seen.get("m") is None or not teq(seen["m"], Mt):
+                return False, "rotation_matrix_to_angle_axis does not convert the given matrix to a quaternion first"
+            if not same_rotation(numeric(rm, "rotation_matrix_to_angle_axis"), M):
+                return False, "rotation_matrix_to_angle_axis(M) is not the rotation vector of the quaternion of M"
+            return True, ""
+        _guard(ctx, "T7.quat-angle-axis", f"w={w},v={[str(x) for x in v]}", fQA, f"unit quaternion w={w} v={[str(x) for x in v]}", th)
